@@ -11,6 +11,8 @@
 //	                                                                      → x<text> rt=t|f
 //	rt-type <xTEXT> (<xBADRX>*)  T := ParseType(text); s := T.String(); T' := ParseType(s); T' = T ∧ T'.String() = s
 //	                                                                      → x<s> rt=t|f | <outcome of the first parse>
+//	rt-api <ctor>             a collection type built through the Go constructors: (array xE LO HI) (hash xK xV LO HI)
+//	                          (collection LO HI) (string LO HI) (tuple (xT*) [LO HI]); printed text and round trip
 //	@rt-typeof <value>        the inferred types of a value (PType, DetailedType, Generic) round-trip  (implementation only)
 //
 // value syntax: u | d | (b t|f) | (i N) | (f BITS xTEXT) | (s xHEX) | (r xHEX) | (a v*) | (h (k v)*) | (ty xTEXT)
@@ -141,6 +143,18 @@ func exec1(c px.Context, op string, args []sx.Sexp) core.Result {
 			break
 		}
 		return rtType(c, string(s))
+	case "rt-api":
+		// a collection type built through the Go constructors (not through ParseType)
+		var t px.Type
+		if o := syn.Safely(func() px.Value { return apiType(c, args[0]) }); o.Kind != "value" {
+			return core.Result{Out: "unbuildable", Pred: "n/a", Tags: []string{"rt-api", "unbuildable"}}
+		} else {
+			t = o.Val.(px.Type)
+		}
+		r := typeRoundTrip(c, t)
+		r.NonTrivial = true
+		r.Tags = append(r.Tags, "rt-api", "type:"+t.Name())
+		return r
 	case "rt-typeof":
 		var v px.Value
 		if o := syn.Safely(func() px.Value { return valOf(c, args[0]) }); o.Kind != "value" {
@@ -363,7 +377,8 @@ func typeRoundTrip(c px.Context, t px.Type) core.Result {
 //	                   text format (Go durations, Go time stamps, merged version ranges, URI hashes), which the creator does not read
 //	lazy-type          Init, Like, Runtime: resolved lazily; printing may raise, parameters are normalised away
 //	nominal-type       Object, TypeSet, aliases, TypeReference: print as a name (or compare by identity)
-//	callable-block     a Callable whose block position holds something that is not a Callable
+//	callable-block     a Callable whose block position holds something that is not a Callable, or whose parameters hold
+//	                   Unit (dropped when printing) or start with a Tuple (read back as the whole parameter tuple)
 var exoticGroups = []struct {
 	class string
 	names []string
@@ -389,12 +404,24 @@ func typeClass(t px.Type, dflt string) string {
 				found["TypeAlias"] = true
 			}
 		case *types.CallableType:
+			// a Callable whose block position holds a non-Callable, or whose parameter list holds Unit (dropped when
+			// printing) or starts with a Tuple (read back as the whole parameter tuple)
 			if bt := x.BlockType(); bt != nil {
 				if o, ok := bt.(*types.OptionalType); ok {
 					bt = o.ContainedType()
 				}
 				if _, ok := bt.(*types.CallableType); !ok {
 					found["CallableBlock"] = true
+				}
+			}
+			if pt, ok := x.ParametersType().(*types.TupleType); ok {
+				for i, p := range pt.Types() {
+					if _, ok := p.(*types.UnitType); ok {
+						found["CallableBlock"] = true
+					}
+					if _, ok := p.(*types.TupleType); ok && i == 0 {
+						found["CallableBlock"] = true
+					}
 				}
 			}
 		case px.TypeSet:
@@ -513,6 +540,9 @@ func rtTypeOf(c px.Context, v px.Value) core.Result {
 		return px.Undef
 	}); o.Kind != "value" {
 		cls, _ := liveClass(v, 0)
+		if cls == "leaf-outside-quantifier" {
+			return core.Result{Out: "leaf", Pred: "n/a", Tags: []string{"rt-typeof", "leaf-outside-quantifier"}}
+		}
 		if cls == "" {
 			cls = "infer-" + o.Kind
 		}
@@ -528,6 +558,34 @@ func rtTypeOf(c px.Context, v px.Value) core.Result {
 		}
 	}
 	return core.Result{Out: strings.Join(outs, " | "), Pred: "ok", NonTrivial: true, Tags: []string{"rt-typeof"}}
+}
+
+// apiType builds (array E LO HI) (hash K V LO HI) (collection LO HI) (string LO HI) (tuple (T*) LO HI | (T*)) through the
+// exported constructors; E, K, V, T are type names
+func apiType(c px.Context, e sx.Sexp) px.Type {
+	a := e.Args()
+	ty := func(x sx.Sexp) px.Type { return c.ParseType(x.MustStr()) }
+	rng := func(lo, hi sx.Sexp) *types.IntegerType { return types.NewIntegerType(lo.MustInt(), hi.MustInt()) }
+	switch e.Tag() {
+	case "array":
+		return types.NewArrayType(ty(a[0]), rng(a[1], a[2]))
+	case "hash":
+		return types.NewHashType(ty(a[0]), ty(a[1]), rng(a[2], a[3]))
+	case "collection":
+		return types.NewCollectionType(rng(a[0], a[1]))
+	case "string":
+		return types.NewStringType(rng(a[0], a[1]), "")
+	case "tuple":
+		ts := []px.Type{}
+		for _, x := range a[0].List {
+			ts = append(ts, ty(x))
+		}
+		if len(a) == 1 {
+			return types.NewTupleType(ts, nil)
+		}
+		return types.NewTupleType(ts, rng(a[1], a[2]))
+	}
+	panic(fmt.Errorf("bad api type %s", e))
 }
 
 // ---- values ---------------------------------------------------------------------------------------------------
@@ -798,19 +856,92 @@ func gen(g *core.G) {
 		}
 	}
 	// random types from the grammar of all core constructors
-	for i := 0; i < 6000*g.Scale; i++ {
+	for i := 0; i < 15000*g.Scale; i++ {
 		t := syn.GenTypeText(g.Rng, 1+g.Rng.Intn(3))
 		g.Emit("@rt-type " + hx(t) + " " + syn.OracleSexp(t))
 	}
+	// reserved / normalised parameter forms of every collection constructor and their near neighbours: element, key and
+	// value type in {none, Any, Unit, String} x size in {none, [0,0], [0,1], [1,1], [0,default], [default,default], …},
+	// through ParseType of explicit text (modelled when the creator accepts the text) and through the Go constructors
+	elems := []string{"", "Any", "Unit", "String"}
+	sizeTexts := []string{"", "0, 0", "0, 1", "1, 1", "0, default", "default, default", "default, 0", "default, 1", "0", "1", "Integer[0, 0]", "Integer[0]", "Integer[0, 1]"}
+	join := func(xs ...string) string {
+		ys := []string{}
+		for _, x := range xs {
+			if x != "" {
+				ys = append(ys, x)
+			}
+		}
+		return strings.Join(ys, ", ")
+	}
+	emitText := func(t string, inFragment bool) {
+		ok := false
+		if inFragment {
+			if o := syn.Safely(func() px.Value { return c.ParseType(t) }); o.Kind == "value" {
+				_, ok = o.Val.(px.Type)
+			}
+		}
+		if ok {
+			g.Emit("rt-type " + hx(t) + " " + syn.OracleSexp(t))
+		} else {
+			g.Emit("@rt-type " + hx(t) + " " + syn.OracleSexp(t))
+		}
+	}
+	for _, sz := range sizeTexts {
+		for _, e := range elems {
+			if p := join(e, sz); p != "" {
+				emitText("Array["+p+"]", true)
+				emitText("Tuple["+p+"]", !strings.Contains(sz, "Integer["))
+				emitText("Tuple["+join(e, e, sz)+"]", !strings.Contains(sz, "Integer["))
+				emitText("Optional[Array["+p+"]]", true)
+			}
+			for _, v := range elems {
+				if (e == "") != (v == "") {
+					continue
+				}
+				if p := join(e, v, sz); p != "" {
+					emitText("Hash["+p+"]", true)
+					emitText("Variant[Hash["+p+"], Integer]", true)
+				}
+			}
+		}
+		if sz != "" {
+			emitText("Collection["+sz+"]", true)
+			emitText("String["+sz+"]", true)
+		}
+	}
+	bounds := [][2]int64{{0, 0}, {0, 1}, {1, 1}, {0, math.MaxInt64}, {1, math.MaxInt64}, {0, 5}, {2, 2}}
+	for _, b := range bounds {
+		lo, hi := strconv.FormatInt(b[0], 10), strconv.FormatInt(b[1], 10)
+		g.Emit("rt-api (collection " + lo + " " + hi + ")")
+		g.Emit("rt-api (string " + lo + " " + hi + ")")
+		for _, e := range elems[1:] {
+			g.Emit("rt-api (array " + hx(e) + " " + lo + " " + hi + ")")
+			g.Emit("@rt-api (tuple (" + hx(e) + ") " + lo + " " + hi + ")")
+			g.Emit("@rt-api (tuple () " + lo + " " + hi + ")")
+			for _, v := range elems[1:] {
+				g.Emit("rt-api (hash " + hx(e) + " " + hx(v) + " " + lo + " " + hi + ")")
+			}
+		}
+	}
+	g.Emit("@rt-api (tuple ())")
+	g.Emit("@rt-api (tuple (" + hx("Any") + "))")
+	g.Emit("@rt-api (tuple (" + hx("Unit") + " " + hx("Any") + "))")
+
+	// the modelled fragment: valid by construction, model and implementation compared (printed text and round trip verdict)
+	for i := 0; i < 20000*g.Scale; i++ {
+		t := syn.GenFragType(g.Rng, 1+g.Rng.Intn(3))
+		g.Emit("rt-type " + hx(t) + " " + syn.OracleSexp(t))
+	}
 	// random literal values; inferred types of values
-	for i := 0; i < 6000*g.Scale; i++ {
+	for i := 0; i < 15000*g.Scale; i++ {
 		v := genVal(g.Rng, g.Rng.Intn(4), false)
 		g.Emit(valOp(c, v))
 		if i%3 == 0 {
 			g.Emit("@rt-typeof " + v)
 		}
 	}
-	for i := 0; i < 1500*g.Scale; i++ {
+	for i := 0; i < 4000*g.Scale; i++ {
 		s := syn.GenString(g.Rng) + syn.GenString(g.Rng)
 		g.Emit("rt-str " + hx(s))
 		g.Emit(rxOp(s))
